@@ -156,6 +156,48 @@ pub mod verif {
         pub fn flush(&self) -> (u64, u64) { self.0.flush() }
     }
 
+    /// `State` + `FlushState` + a payload writer: one `flush()` = one flush cycle of the exporter, returning its payloads.
+    pub struct FlushHarness {
+        state: crate::state::State,
+        flush_state: crate::state::FlushState,
+        writer: crate::writer::PayloadWriter,
+        telemetry: crate::telemetry::TelemetryUpdate,
+    }
+    impl FlushHarness {
+        pub fn new(sampling: bool) -> Self {
+            let config = crate::state::StateConfiguration {
+                agg_mode: crate::builder::AggregationMode::Conservative,
+                telemetry: false,
+                histogram_sampling: sampling,
+                histogram_reservoir_size: 4,
+                histograms_as_distributions: false,
+                global_labels: Vec::new(),
+                global_prefix: None,
+            };
+            FlushHarness {
+                state: crate::state::State::new(config),
+                flush_state: Default::default(),
+                writer: crate::writer::PayloadWriter::new(8192, false),
+                telemetry: Default::default(),
+            }
+        }
+        pub fn counter(&self, key: &Key) -> metrics::Counter {
+            self.state.registry().get_or_create_counter(key, |c| metrics::Counter::from_arc(Arc::clone(c)))
+        }
+        pub fn histogram(&self, key: &Key) -> metrics::Histogram {
+            self.state.registry().get_or_create_histogram(key, |h| metrics::Histogram::from_arc(Arc::clone(h)))
+        }
+        pub fn flush(&mut self) -> Vec<Vec<u8>> {
+            self.state.flush(&mut self.flush_state, &mut self.writer, &mut self.telemetry);
+            let mut out = Vec::new();
+            let mut payloads = self.writer.payloads();
+            while let Some(p) = payloads.next_payload() {
+                out.push(p.to_vec());
+            }
+            out
+        }
+    }
+
     pub struct Gauge(Arc<crate::storage::AtomicGauge>);
     impl Gauge {
         pub fn new() -> Self {
